@@ -165,5 +165,232 @@ class C16Lemma(LemmaUnit):
                [P.fut_spec(x, fa), z3.Not(px.ok(x)), out(oa, fa)], z3.And(rexc, oa == omap(x, px.exc(x))))
 
 
-UNITS = [AFeed, AFeedNoPre, AConsumer, AConsumerNoPre, C16Lemma]
-NOT_DECIDED = ('AsyncParmapper/AsyncParmapperAsync/ParmapperAsync wrappers and AsyncServer.stream delegate to async_fifo_stream/fifo_stream with a func built from executor.submit / create_task / run_coroutine_threadsafe: argument pass-through only (not yet under contract)',)
+
+# ================================================================ the asynchronous parmap variants: argument pass-through to async_fifo_stream
+from pyvc.unit import Unit, LoopSpec          # noqa: E402
+from pyvc.models import Rec, Nop              # noqa: E402
+from pyvc.core import St, box, KwPack, NOKW, Closure, Unsupported       # noqa: E402
+from contracts.c01 import ExecCM              # noqa: E402
+FA = 'streamer/_streamer_async.py'
+
+
+class AGenModel(Obj):
+    """the async generator async_fifo_stream(...) returns: yields out_at(0), out_at(1), ... then ends or raises"""
+
+    def __init__(self, ex, unit):
+        super().__init__(ex, 'async_fifo_stream(...)')
+        self.u = unit
+
+    def havoc(self, ex, st):
+        pass
+
+    def iter_start(self, ex, st, node):
+        st = st.fork()
+        st.ghost['gi'] = z3.IntVal(0)
+        return [('ok', st, self)]
+
+    def havoc_index(self, st):
+        i = fresh('gi', z3.IntSort())
+        st.assume(i >= 0)
+        st.ghost['gi'] = i
+
+    def idx(self, st):
+        return st.ghost['gi']
+
+    def pull(self, ex, st, node):
+        i = st.ghost['gi']
+        s1 = st.fork()
+        s1.ghost['gi'] = i + 1
+        s2 = st.fork()
+        s2.ghost['ended'] = i
+        exc = fresh('fifo_exc')
+        s3 = st.fork().assume(V.isinst(exc, 'BaseException'), *V.cls_facts(exc))
+        return [('item', s1, self.u.out_at(i)), ('stop', s2, None), ('raise', s3, exc)]
+
+
+class AsyncParmapperIter(Unit):
+    """AsyncParmapper.__aiter__ (async environment, sync worker func): one executor of the requested kind with max_workers == concurrency, shut down on
+    every exit; delegates once to async_fifo_stream(self._instream, <local func>, capacity = 2 x concurrency, own flags / preprocessor / kwargs,
+    executor=<that executor>, loop=<running loop>) and yields every element it produces, in order, nothing else."""
+    prop = 'C16'
+    file = FA
+    qual = 'AsyncParmapper.__aiter__'
+    executor_type = 'thread'
+    assumed_contracts = ('async_fifo_stream(...): units C16:async_fifo_stream[*]', 'func: unit C16:AsyncParmapper.__aiter__.<locals>.func')
+    canaries = (('return_x / return_exceptions swapped', 'return_x=self._return_x,\n                return_exceptions=self._return_exceptions,', 'return_x=self._return_exceptions,\n                return_exceptions=self._return_x,', 'own flags'),
+                ('look-ahead not tied to concurrency', 'capacity=self._concurrency * 2,', 'capacity=1000,', ''),
+                ('elements dropped', '                yield z', '                pass', 'every element'))
+
+    def __init__(self):
+        self.variant = self.executor_type
+        super().__init__()
+
+    def setup(self, ex):
+        st = St()
+        self.F = {k: z3.Const('self_' + k, Val) for k in ('_instream', '_func', '_preprocessor', '_executor_initializer', '_executor_init_args')}
+        self.conc = z3.Int('concurrency')
+        self.rx, self.rexc = z3.Bool('return_x'), z3.Bool('return_exceptions')
+        self.kw = KwPack(z3.Const('func_kwargs', Val))
+        self.me = Rec(ex, 'self', immutable=True).init(st, _executor_type=z3.StringVal(self.executor_type), _concurrency=self.conc, _return_x=self.rx, _return_exceptions=self.rexc,
+                                                       _func_kwargs=self.kw, _name=z3.String('name'), **self.F)
+        st.env['self'] = self.me
+        self.execs = []
+        self.out_at = z3.Function('fifo_out_at', z3.IntSort(), Val)
+        st.ghost['out'] = V.EMPTY
+        st.ghost['fifo'] = ()
+
+        def mk(kind):
+            def f(e, s, a, k, n):
+                x = ExecCM(e, kind, a[0] if a else k.get('max_workers'))
+                s = s.fork()
+                x.init(s)
+                self.execs.append(x)
+                return [('ok', s, x)]
+            return Fn(f, name=kind)
+        ex.globals['ThreadPoolExecutor'] = mk('thread')
+        ex.globals['ProcessPoolExecutor'] = mk('process')
+        self.loop = z3.Const('running_loop', Val)
+        ex.globals['asyncio.get_running_loop'] = Fn(lambda e, s, a, k, n: [('ok', s, self.loop)])
+        self.gen = AGenModel(ex, self)
+
+        def fifo(e, s, a, k, n):
+            s = s.fork()
+            s.ghost['fifo'] = s.ghost['fifo'] + ((list(a), dict(k)),)
+            return [('ok', s, self.gen)]
+        ex.globals['async_fifo_stream'] = Fn(fifo, name='async_fifo_stream')
+        return st
+
+    @property
+    def loops(self):
+        def inv(s, ex):
+            i, out, j = s.ghost['gi'], s.ghost['out'], z3.Int('any_pos')
+            return z3.And(z3.Length(out) == i, z3.Implies(z3.And(j >= 0, j < i), out[j] == self.out_at(j)), *[z3.And(x.get(s, 'open'), z3.Not(x.get(s, 'shut'))) for x in self.execs])
+        return {0: LoopSpec(inv=inv, keep=('executor', 'func', 'loop'))}
+
+    def check_delegate(self, ex, s, k, extra=()):
+        calls = s.ghost['fifo']
+        if len(calls) != 1:
+            ex.oblige(s, f'exit({k}): delegates exactly once to async_fifo_stream', False)
+            return
+        a, kw = calls[0]
+        f = unbox_handle(ex, a[1]) if len(a) == 2 else None
+        ok = len(a) == 2 and isinstance(f, Closure) and f.node.name == 'func' and {'capacity', 'return_x', 'return_exceptions', 'preprocessor', '**'} <= set(kw)
+        ex.oblige(s, f'exit({k}): delegates once to async_fifo_stream(self._instream, <local func>, ...) with capacity == 2 x concurrency and its own flags / preprocessor / kwargs',
+                  z3.And(box(ex, a[0]) == self.F['_instream'], box(ex, kw['capacity']) == V.intv(2 * self.conc), kw['return_x'] == self.rx, kw['return_exceptions'] == self.rexc,
+                         box(ex, kw['preprocessor']) == self.F['_preprocessor'], z3.BoolVal(kw['**'] is self.kw), box(ex, kw.get('loop')) == self.loop, *extra(kw)) if ok else z3.BoolVal(False))
+
+    def post(self, ex, outs):
+        for k, s, p in outs:
+            if len(self.execs) == 1:
+                x = self.execs[0]
+                ex.oblige(s, f'exit({k}): [C08] exactly one executor of the requested kind, max_workers == concurrency, shut down on every exit path',
+                          z3.And(z3.BoolVal(x.kind == self.executor_type), box(ex, x.nworkers) == V.intv(self.conc) if x.nworkers is not None else z3.BoolVal(False), x.get(s, 'shut')))
+            else:
+                ex.oblige(s, f'exit({k}): exactly one executor', False)
+            self.check_delegate(ex, s, k, extra=lambda kw: [z3.BoolVal(unbox_handle(ex, kw.get('executor')) is self.execs[0])] if self.execs else [z3.BoolVal(False)])
+            if k in ('normal', 'return'):
+                j, out, n = z3.Int('any_pos'), s.ghost['out'], s.ghost.get('ended', z3.IntVal(-1))
+                ex.oblige(s, 'exit: yielded every element of async_fifo_stream, in order, and nothing else', z3.And(z3.Length(out) == n, z3.Implies(z3.And(j >= 0, j < n), out[j] == self.out_at(j))))
+
+
+class AsyncParmapperIterProcess(AsyncParmapperIter):
+    executor_type = 'process'
+    canaries = ()
+
+
+class AsyncParmapperFunc(Unit):
+    """the local func of AsyncParmapper.__aiter__: awaitable of the result of self._func(x, **kwargs) submitted to the given executor (own x)"""
+    prop = 'C16'
+    file = FA
+    qual = 'AsyncParmapper.__aiter__.<locals>.func'
+    canaries = (('kwargs dropped', 'fut = executor.submit(self._func, x, **kwargs)', 'fut = executor.submit(self._func, x)', ''),
+                ('result of another future awaited', 'return loop.run_in_executor(None, fut.result)', 'return loop.run_in_executor(None, executor.submit(self._func, None).result)', ''))
+
+    def setup(self, ex):
+        st = St()
+        self.x, self.func = z3.Const('x', Val), z3.Const('the_func', Val)
+        self.kw = KwPack(z3.Const('kwargs', Val))
+        st.ghost['submitted'] = ()
+        st.ghost['awaited'] = ()
+        self.submit_fut = z3.Function('submitted_future', Val, Val, Val, Val)
+
+        def submit(e, s, a, k, n):
+            s = s.fork()
+            k = dict(k)
+            pack = k.pop('**', None)
+            args = tuple(box(e, v) for v in a)
+            s.ghost['submitted'] = s.ghost['submitted'] + ((args, pack.val if isinstance(pack, KwPack) else NOKW, tuple(k)),)
+            f = Rec(e, 'fut', immutable=True).init(s, result=self.submit_fut(args[0], args[1] if len(args) > 1 else NONE, pack.val if isinstance(pack, KwPack) else NOKW) if args else NONE)
+            return [('ok', s, f)]
+
+        def run_in_executor(e, s, a, k, n):
+            s = s.fork()
+            s.ghost['awaited'] = s.ghost['awaited'] + ((box(e, a[0]), box(e, a[1])),)
+            return [('ok', s, z3.Function('awaitable_of', Val, Val)(box(e, a[1])))]
+        st.cells['self'] = Rec(ex, 'self', immutable=True).init(st, _func=self.func)
+        st.env.update(x=self.x, kwargs=self.kw, executor=Rec(ex, 'executor', immutable=True, methods={'submit': Fn(submit)}), loop=Rec(ex, 'loop', immutable=True, methods={'run_in_executor': Fn(run_in_executor)}))
+        return st
+
+    def post(self, ex, outs):
+        for k, s, p in outs:
+            if k not in ('normal', 'return'):
+                ex.oblige(s, 'exit: never raises', False)
+                continue
+            sub, aw = s.ghost['submitted'], s.ghost['awaited']
+            ok = len(sub) == 1 and len(sub[0][0]) == 2 and not sub[0][2] and len(aw) == 1
+            want = self.submit_fut(self.func, self.x, self.kw.val)
+            ex.oblige(s, 'exit: submits self._func(x, **kwargs) exactly once to the given executor and returns the awaitable of THAT future\'s result',
+                      z3.And(sub[0][0][0] == self.func, sub[0][0][1] == self.x, sub[0][1] == self.kw.val, aw[0][0] == NONE, aw[0][1] == want, box(ex, p) == z3.Function('awaitable_of', Val, Val)(want)) if ok else z3.BoolVal(False))
+
+
+class AsyncParmapperAsyncIter(AsyncParmapperIter):
+    """AsyncParmapperAsync.__aiter__ (async environment, async worker func): returns async_fifo_stream(self._instream, <local func>, ...) itself."""
+    qual = 'AsyncParmapperAsync.__aiter__'
+    executor_type = 'none'
+    loops = {}
+    assumed_contracts = ('async_fifo_stream(...): units C16:async_fifo_stream[*]', 'func: unit C16:AsyncParmapperAsync.__aiter__.<locals>.func')
+    canaries = (('return_x / return_exceptions swapped', 'return_x=self._return_x,\n            return_exceptions=self._return_exceptions,', 'return_x=self._return_exceptions,\n            return_exceptions=self._return_x,', 'own flags'),
+                ('preprocessor dropped', 'preprocessor=self._preprocessor,', 'preprocessor=None,', ''))
+
+    def post(self, ex, outs):
+        for k, s, p in outs:
+            self.check_delegate(ex, s, k, extra=lambda kw: [z3.BoolVal('executor' not in kw)])
+            if k in ('normal', 'return'):
+                ex.oblige(s, 'exit: returns that async generator itself (so: every element, in order)', z3.BoolVal(unbox_handle(ex, p) is self.gen and len(self.execs) == 0))
+            else:
+                ex.oblige(s, 'exit: does not raise', False)
+
+
+class AsyncParmapperAsyncFunc(Unit):
+    """the local func of AsyncParmapperAsync.__aiter__: the task running self._func(x, **kwargs) on the given loop (own x)"""
+    prop = 'C16'
+    file = FA
+    qual = 'AsyncParmapperAsync.__aiter__.<locals>.func'
+    canaries = (('task of another element', 'return loop.create_task(self._func(x, **kwargs))', 'return loop.create_task(self._func(loop, **kwargs))', ''),)
+
+    def setup(self, ex):
+        from pyvc.models import UFunc
+        st = St()
+        self.x = z3.Const('x', Val)
+        self.kw = KwPack(z3.Const('kwargs', Val))
+        self.func = UFunc('the_async_func', 1, raises='Exception')
+        self.task = z3.Function('task_of', Val, Val)
+        st.cells['self'] = Rec(ex, 'self', immutable=True).init(st, _func=self.func)
+        st.env.update(x=self.x, kwargs=self.kw, loop=Rec(ex, 'loop', immutable=True, methods={'create_task': Fn(lambda e, s, a, k, n: [('ok', s, self.task(box(e, a[0])))])}))
+        return st
+
+    def post(self, ex, outs):
+        coro, ok, exc = self.func.app(None, self.x, kw=self.kw.val)
+        for k, s, p in outs:
+            if k in ('normal', 'return'):
+                ex.oblige(s, 'exit: the task created on the given loop for self._func(x, **kwargs) -- its own x, its own kwargs', box(ex, p) == self.task(coro))
+            else:
+                ex.oblige(s, 'exit(raise): only what calling self._func(x, **kwargs) itself raised', z3.And(z3.Not(ok), p == exc))
+
+
+UNITS_APARMAP = [AsyncParmapperIter, AsyncParmapperIterProcess, AsyncParmapperFunc, AsyncParmapperAsyncIter, AsyncParmapperAsyncFunc]
+
+from contracts.server import ACallUnit, AStreamUnit, AEnqueueUnit, AGatherUnit, AWaitUnit      # noqa: E402
+from contracts.buffer import ParmapperAsyncIter, DoAsyncMain        # noqa: E402
+UNITS = [AFeed, AFeedNoPre, AConsumer, AConsumerNoPre] + UNITS_APARMAP + [ParmapperAsyncIter, DoAsyncMain, ACallUnit, AStreamUnit, AEnqueueUnit, AGatherUnit, AWaitUnit, C16Lemma]
+NOT_DECIDED = ('that loop.run_in_executor / create_task / run_coroutine_threadsafe deliver the outcome of what they wrap (trusted asyncio)',)
